@@ -375,7 +375,57 @@ COND = 1e4
 STATE = ["qpos", "qvel", "act", "time", "qacc_warmstart", "ctrl", "qfrc_applied", "xfrc_applied", "mocap_pos", "mocap_quat"]
 
 
-def oracle_case(xml, seed, discrete):
+# directed family for polynomial joint damping (damping="b0 b1 b2": force -(b0 v + b1 v|v| + b2 v^3)): the Euler step
+# integrates the derivative b0 + 2 b1 |v| + 3 b2 v^2 implicitly, discrete_acc must invert exactly that, also for dofs
+# whose LINEAR part is zero
+POLY_XML = """
+<mujoco>
+  <option timestep=".01" gravity="-1 -1 -3" integrator="{integ}"/>
+  <worldbody>
+    <body>
+      <geom type="sphere" size=".1" pos=".5 0 0"/>
+      <joint name="joint1" type="hinge" axis="0 1 0" damping="{d1}"/>
+      <body>
+        <geom type="sphere" size=".2" pos="1 0 0"/>
+        <joint name="joint2" type="hinge" axis="0 1 0" damping="{d2}"/>
+        <body pos="1 0 0">
+          <geom type="capsule" size=".05" fromto="0 0 0 0 .4 0"/>
+          <joint name="joint3" type="slide" axis="0 0 1" damping="{d3}"/>
+        </body>
+      </body>
+    </body>
+  </worldbody>
+  <actuator><motor joint="joint1"/><motor joint="joint3" gear="2"/></actuator>
+  {equality}
+</mujoco>
+"""
+POLY_EQUALITY = '<equality><joint joint1="joint1" joint2="joint2"/></equality>'
+POLY_DAMPING = (
+  ("linear", ".1", ".2", ".3"),
+  ("linear+poly", ".1 .5 .2", ".2 .3 .1", ".3 1 1"),
+  ("mixed", ".1", "0 2 1", ".3 1 1"),
+  ("poly-only", "0 2 1", "0 3 2", "0 4 3"),
+)
+
+
+def poly_xml(spec, constrained, integ):
+  return POLY_XML.format(d1=spec[1], d2=spec[2], d3=spec[3], equality=POLY_EQUALITY if constrained else "", integ=integ)
+
+
+def apply_poly(m, seed):
+  """Random non-negative dof_dampingpoly on a compiled model; about a third of the damped dofs lose their LINEAR
+  part (damping = 0 with a non-zero polynomial part).  Deterministic in (model, seed): every copy gets the same."""
+  rng = np.random.default_rng(seed + 77)
+  if m.nv == 0:
+    return
+  poly = np.abs(rng.normal(0, 0.3, (m.nv, 2)))
+  poly[rng.random(m.nv) < 0.3] = 0.0
+  zero_lin = (rng.random(m.nv) < 0.35) & (poly.sum(axis=1) > 0)
+  m.dof_dampingpoly[:] = poly.astype(np.float32)
+  m.dof_damping[zero_lin] = 0.0
+
+
+def oracle_case(xml, seed, discrete, poly=False):
   """forward (then step for the discrete variant) then inverse.  Returns a dict of scaled errors."""
   import mujoco
 
@@ -384,6 +434,8 @@ def oracle_case(xml, seed, discrete):
 
   _, enb = flag_tables()
   m = mujoco.MjModel.from_xml_string(xml)
+  if poly:
+    apply_poly(m, seed)
   rng = np.random.default_rng(seed)
   ds = mujoco.MjData(m)
   models.random_state(rng, m, ds, vel_scale=0.5, unnormalized=False)
@@ -436,6 +488,8 @@ def oracle_case(xml, seed, discrete):
   mjw.step(mm, dd)
   a_d = (dd.qvel.numpy()[0].astype(np.float64) - qv0) / m.opt.timestep
   m2 = mujoco.MjModel.from_xml_string(xml)
+  if poly:
+    apply_poly(m2, seed)
   m2.opt.enableflags = enb["INVDISCRETE"]
   mm2 = mjw.put_model(m2)
   a32 = a_d.astype(np.float32).reshape(1, -1)
@@ -468,7 +522,7 @@ def run(res):
     "T: real launches of _qfrc_inverse (in place), _qfrc_eulerdamp, _compute_damping_deriv, _euler_damp_qfrc, _qfrc_smooth vs the translated kernels (random shapes, per-world / shared model arrays, zero and non-zero dampingpoly); "
     "C: real inverse.discrete_acc and forward.euler on diagonal-inertia models (1..4 dofs, 3 time steps, random damping, dampingpoly, velocities) vs the Coq maps at binary64; "
     "S: guard table vs observed behaviour for the 4 settings of (EULERDAMP, DAMPER); "
-    "oracle: random models (plane + sphere/capsule contacts, actuators, tendons, equality, limits, damping) x {Euler, implicitfast} x {continuous, INVDISCRETE}: qfrc_inverse vs applied+actuator+xfrc+residual and vs mujoco.mj_inverse, relative to the largest force term"
+    "oracle: random models (plane + sphere/capsule contacts, actuators, tendons, equality, limits, damping; every other model with random polynomial damping, a third of whose dofs have zero linear part) and a directed 3-dof family with damping specs linear / linear+poly / mixed / poly-only, with and without an equality, x {Euler, implicitfast} x {continuous, INVDISCRETE}: qfrc_inverse vs applied+actuator+xfrc+residual and vs mujoco.mj_inverse, relative to the largest force term"
   )
   ok, trs, failing = propkit.prove(res, PROPS, gen_names=["Skel_pipeline", "Skel_flags", "T_inverse", "kforward"])
   vlib.log(f"[C26] proof built: {time.time() - t0:.1f} s")
@@ -525,12 +579,23 @@ def run(res):
   # ---- oracle
   nmodels = 16 if quick else 160
   bad, worst, nrun, nskip, ncon, nfwd = [], {"vs_identity": 0.0, "vs_mujoco": 0.0}, 0, 0, 0, 0
+  ocases = []
   for k in range(nmodels):
     for integ in ("Euler", "implicitfast"):
       xml = random_xml(k, integ)
       for discrete in (False, True):
+        # every other model also gets random polynomial damping (some dofs with zero linear part)
+        ocases.append((k, integ, discrete, xml, vlib.seed() + 9000 + k, k % 2 == 1))
+  for si, spec in enumerate(POLY_DAMPING):
+    for constrained in (False, True):
+      for integ in ("Euler", "implicitfast"):
+        for discrete in ((True,) if quick else (False, True)):
+          ocases.append((f"poly:{spec[0]}:{'eq' if constrained else 'free'}", integ, discrete, poly_xml(spec, constrained, integ), vlib.seed() + 9500 + si, False))
+  for k, integ, discrete, xml, oseed, poly in ocases:
+    if True:
+      if True:
         try:
-          r = oracle_case(xml, vlib.seed() + 9000 + k, discrete)
+          r = oracle_case(xml, oseed, discrete, poly)
         except Exception as e:
           r = {"exception": f"{type(e).__name__}: {e}", "vs_identity": float("inf"), "vs_mujoco": 0.0, "counts_differ": False, "nefc": 0}
         res.count()
@@ -554,7 +619,7 @@ def run(res):
           if not (r["vs_mujoco"] <= RTOL):
             probs.append("mujoco")
         if probs:
-          bad.append({"case": k, "integrator": integ, "discrete": discrete, "problems": probs, "result": r, "xml": xml, "seed": vlib.seed() + 9000 + k})
+          bad.append({"case": k, "integrator": integ, "discrete": discrete, "problems": probs, "result": r, "xml": xml, "seed": oseed, "poly": poly})
   res.obligation("oracle: inverse(forward) returns the applied forces (+ forward residual), agrees with mujoco.mj_inverse, leaves state and qacc alone", not bad, f"{nrun} runs ({ncon} with active constraints, {nskip} ill-conditioned or non-finite discarded, {nfwd} not compared with mj_inverse because the forward solutions already differ), worst scaled errors {worst}, {len(bad)} failures")
   res.extra["oracle_worst_scaled_error"] = worst
   res.sample({"kind": "oracle", "runs": nrun, "with_constraints": ncon, "worst": worst})
@@ -583,7 +648,7 @@ def replay(res, path):
     print(json.dumps({f"EULERDAMP={int(a)},DAMPER={int(b)}": v for (a, b), v in observed_guards().items()}, indent=1))
     return 0
   if isinstance(data, dict) and "xml" in data and "seed" in data:
-    print(json.dumps(oracle_case(data["xml"], data["seed"], bool(data.get("discrete"))), indent=1, default=str))
+    print(json.dumps(oracle_case(data["xml"], data["seed"], bool(data.get("discrete")), bool(data.get("poly"))), indent=1, default=str))
     return 0
   print("replay: no concrete input in this file (proof / correspondence breakage); re-run the check")
   return 1
